@@ -25,7 +25,9 @@ def run(rep, tier, seed, replay):
         i = min(bad, key=lambda j: len(cases[j]))
         special = {"cross": "a connection that keeps asking for its own key while another one is reset with forty requests in flight must read only its own replies",
                    "flush": "five requests over a backend connection whose writer is held up for 120 ms after each flush (every reply reaches the reader before its request is handed over) must each get exactly their own reply",
-                   "late": "a node answering after 3.3 s: the one reply is the node's"}
+                   "late": "a node answering after 3.3 s: the one reply is the node's",
+                   "filtered": "a pipeline GET k / APPEND k x with compression enabled (APPEND is answered by the filter chain, never written): both replies arrive, in order, within two seconds",
+                   "big": "a pipeline alternating small replies and replies of 8192..70000 bytes from nodes that take 15 ms: every reply whole and in the position of its request"}
         kind = cases[i].split(" # ")[0].split()[2] if len(cases[i].split(" # ")[0].split()) > 2 else ""
         rep.violation({"kind": "input", "oracle": (special[kind] + "; observed: " + impl[i]) if kind in special else "%s requests and the sentinel must produce exactly %d replies; observed: %s" % (cases[i].split()[0], int(cases[i].split()[0]) + 1, impl[i]),
                        "case": {"line": cases[i], "format": "n token # requests (canonical tokens), then GET of a key holding the token"}, "impl": impl[i], "failing_cases": len(bad)})
